@@ -297,12 +297,11 @@ func (l *Local) load(podResources []daemon.PodResources) error {
 							R:    err,
 						}
 					}
-					v, ok := l.ipv4[ip]
-					if !ok {
-						continue
+					// the ipv4 may be gone in remote, the ipv6 of this record still has to be restored
+					if v, ok := l.ipv4[ip]; ok {
+						v.Allocate(podID)
+						metric.ResourcePoolIdle.WithLabelValues(metric.ResourcePoolTypeLocal, string(types.IPStackIPv4)).Dec()
 					}
-					v.Allocate(podID)
-					metric.ResourcePoolIdle.WithLabelValues(metric.ResourcePoolTypeLocal, string(types.IPStackIPv4)).Dec()
 				}
 				if res.IPv6 != "" {
 					ip, err := netip.ParseAddr(res.IPv6)
